@@ -125,3 +125,33 @@ package stack
 //@ func modset.NETSEND
 //@   modifies modset(NETQUIET)
 //@   modifies modset(NETGHOSTS)
+
+// ---------------------------------------------------------------------------
+// C09: demultiplexing. The endpoint for a packet with identifier id is the most specific
+// registered binding: the full 4-tuple (a connected socket), then the same with the wildcard
+// local address, then the listener / bound socket on (local port, local address), then the
+// wildcard listener on the local port; nil if none of the four is registered.
+//@ define demuxKey2(id) = TransportEndpointID{LocalPort: id.LocalPort, LocalAddress: "", RemotePort: id.RemotePort, RemoteAddress: id.RemoteAddress}
+//@ define demuxKey3(id) = TransportEndpointID{LocalPort: id.LocalPort, LocalAddress: id.LocalAddress, RemotePort: 0, RemoteAddress: ""}
+//@ define demuxKey4(id) = TransportEndpointID{LocalPort: id.LocalPort, LocalAddress: "", RemotePort: 0, RemoteAddress: ""}
+//@ define demuxPick(m, id) = ite(m[id] != nil, m[id], ite(m[demuxKey2(id)] != nil, m[demuxKey2(id)], ite(m[demuxKey3(id)] != nil, m[demuxKey3(id)], m[demuxKey4(id)])))
+
+//@ func (*transportDemuxer).findEndpointLocked props C09
+//@   requires eps != nil
+//@   ensures result == demuxPick(eps.endpoints, id)
+
+// ASSUMED interface contract: handing a packet to a transport endpoint is counted.
+//@ func (TransportEndpoint).HandlePacket props C09
+//@   nobody
+//@   ghost_set handled = old(ghost(handled)) + 1
+//@   modifies everything(), ghost(handled)
+
+// deliverPacket hands the packet to exactly the endpoint picked above - once - or to nobody.
+//@ func (*transportDemuxer).deliverPacket props C09
+//@   requires d != nil && r != nil && d.protocol != nil
+//@   requires forallkey(k, d.protocol, implies(has(d.protocol, k), d.protocol[k] != nil))
+//@   at_call HandlePacket requires has(d.protocol, protocolIDs{r.NetProto, protocol}) && recv == demuxPick(d.protocol[protocolIDs{r.NetProto, protocol}].endpoints, id) && recv != nil
+//@   ensures implies(!old(has(d.protocol, protocolIDs{r.NetProto, protocol})), !result && ghost(handled) == old(ghost(handled)))
+//@   ensures implies(old(has(d.protocol, protocolIDs{r.NetProto, protocol})), result == (old(demuxPick(d.protocol[protocolIDs{r.NetProto, protocol}].endpoints, id)) != nil))
+//@   ensures ghost(handled) == old(ghost(handled)) + ite(result, 1, 0)
+//@   modifies everything(), ghost(handled)
